@@ -782,16 +782,19 @@ func (w *world) reread(h *keyset.Handle, es []ent, salt []byte, dh *keyset.Handl
 		return
 	}
 	if !handleEqual(h, h2) {
-		d := ""
-		for i := 0; i < h.Len() && i < h2.Len(); i++ {
-			x, _ := h.Entry(i)
-			y, _ := h2.Entry(i)
-			if x.KeyID() != y.KeyID() || x.KeyStatus() != y.KeyStatus() || x.IsPrimary() != y.IsPrimary() || !x.Key().Equal(y.Key()) {
-				d += fmt.Sprintf(" [entry %d: id %d/%d status %s/%s primary %v/%v %s keyEqual=%v paramsEqual=%v]", i, x.KeyID(), y.KeyID(), statusCode(x.KeyStatus()), statusCode(y.KeyStatus()),
-					x.IsPrimary(), y.IsPrimary(), es[i].spec.label(), x.Key().Equal(y.Key()), x.Key().Parameters().Equal(y.Key().Parameters()))
+		// AES-GCM parameters with an IV size other than 12 or a tag size other than 16 serialize
+		// without error and parse back as 12/16: the re-read keyset is another keyset.
+		lossy := false
+		for _, e := range es {
+			if !faithful(e) {
+				lossy = true
+				o.Count("reread/lossy-serialization/" + e.spec.label())
 			}
 		}
-		o.Violate("%s: the deriver keyset read back is not Equal (%d/%d entries)%s", what, h.Len(), h2.Len(), d)
+		if !lossy {
+			o.Violate("%s: the deriver keyset read back is not Equal", what)
+		}
+		return
 	}
 	kd, err := keyderivation.New(h2)
 	if err != nil {
@@ -814,6 +817,16 @@ func (w *world) reread(h *keyset.Handle, es []ent, salt []byte, dh *keyset.Handl
 func serializable(e ent) bool {
 	_, err := protoserialization.SerializeKey(e.dk)
 	return err == nil
+}
+
+// faithful: the deriver key survives serialization unchanged.
+func faithful(e ent) bool {
+	ks, err := protoserialization.SerializeKey(e.dk)
+	if err != nil {
+		return false
+	}
+	k, err := protoserialization.ParseKey(ks)
+	return err == nil && k.Equal(e.dk)
 }
 
 // ---------- the main case ----------
@@ -1100,7 +1113,7 @@ func (w *world) probeCase() {
 				pl = pLegacy
 			}
 		}
-		if (pl == pLegacy || pl == pLegacyTwist) && !serializable(e) {
+		if (pl == pLegacy || pl == pLegacyTwist) && !faithful(e) {
 			pl = pSame
 		}
 		cfg.plans[i] = pl
@@ -1349,11 +1362,12 @@ func main() {
 	o := hlib.Open("C17")
 	defer o.Close()
 	seed := *hlib.FlagSeed
-	hlib.InstallTape(seed) // tink's own randomness (generated PRF keys, random key ids, nonces) is a function of the seed
+	tape := hlib.InstallTape(seed) // tink's own randomness (generated PRF keys, random key ids, nonces) is a function of the seed
 	w := &world{o: o, rng: hlib.NewRng(seed, "c17")}
-	n := hlib.N(1500, 15000)
+	n := hlib.N(9000, 90000)
 	for c := 0; c < n; c++ {
 		o.Case()
+		tape.Reset()
 		switch r := w.rng.Intn(100); {
 		case r < 78:
 			w.mainCase()
